@@ -218,8 +218,10 @@ BodyVal(nd, o, args) ==
     [] nd.fn = "const" -> nd.name \o "." \o o
     [] OTHER           -> nd.name \o "." \o o \o "(" \o ArgText(args) \o ")"
 
+\* the value of output j is labelled with the ORIGINAL output label (olabels), so that renaming an
+\* output changes only the name under which the value is wired
 NodeOuts(nd, args) == [j \in 1..Len(nd.outputs) |->
-                         <<nd.outputs[j], IF j <= nd.ndata THEN BodyVal(nd, nd.outputs[j], args) ELSE Sent>>]
+                         <<nd.outputs[j], IF j <= nd.ndata THEN BodyVal(nd, nd.olabels[j], args) ELSE Sent>>]
 
 \* the scripted raw decision of the idx-th invocation (the last entry repeats); inside map items
 \* (where invocation indices depend on the schedule) decisions and failures are keyed by ARGUMENT
